@@ -308,7 +308,8 @@ def obligations(tier, seed):
         if 'a2' not in QUERIES[qn] and not jn and qn != 'except':
             # one-column tables whose cells may be EMPTY strings (an empty cell is written as a blank line and must come back as a record);
             # `* except a1` is left out: it yields zero-field records, which no CSV dialect can represent
-            obs.append(_adapter_obl(qn, ['s', 's'], None, t, 'via_csv', (',', 'quoted'), slen=1))
+            for shp in (['c', 'E'], ['E', 'c', 'E']):
+                obs.append(_adapter_obl(qn, shp, None, t, 'via_csv', (',', 'quoted')))
         if not quick:
             obs.append(_adapter_obl(qn, ['cc', 'cz'], ['cz'] if jn else None, t, 'via_csv', (',', 'quoted_rfc')))
     for an in ARGVS:
